@@ -635,8 +635,10 @@ class SV:
         E.memo[key] = (r, t)
         E.exp_args[v.get_id()] = self
         for (a2, v2) in E.exp_atoms[-6:]:
+            eqc = self._cmp(a2, _eq, _eq)
+            if isinstance(eqc, SymBool):
+                E.defs.append(z3.Implies(eqc.t, v == v2))
             if a2.d is None and self.d is None:
-                E.defs.append(z3.Implies(self.n == a2.n, v == v2))
                 E.defs.append(z3.Implies(self.n <= a2.n, v <= v2))
                 E.defs.append(z3.Implies(self.n >= a2.n, v >= v2))
         E.exp_atoms.append((self, v))
